@@ -25,6 +25,7 @@ const (
 	GroupsNone   = 0 // no check groups
 	GroupsFamily = 1 // none, each single group, all five (7 subsets)
 	GroupsAll    = 2 // all 32 subsets
+	GroupsNoneOrAll = 3 // none or all five
 )
 
 type Cfg struct {
@@ -64,6 +65,8 @@ func mask(name string, family int) int {
 		}
 	case GroupsAll:
 		return api.Choose(name, 32)
+	case GroupsNoneOrAll:
+		return 31 * api.Choose(name, 2)
 	}
 	return 0
 }
